@@ -30,7 +30,8 @@ TIMEOUT = {"quick": 900, "thorough": 3600}
 SCTP_CLONES = {"quick": ['s11', 's5'], "thorough": ['s12', 's13', 's14', 's15']}
 STATES = ["connecting", "await_cer", "await_cea", "ready", "ready_idle_soon", "waiting_dwa", "disconnecting",
           "ready_after_unencodable"]     # ready, and a message queued for it earlier could not be encoded
-REACTIONS = ["prompt", "late", "never", "close", "dpa_then_close", "handshake_during_stop", "dpa_output_pending"]
+REACTIONS = ["prompt", "late", "never", "close", "dpa_then_close", "handshake_during_stop", "dpa_output_pending",
+             "prompt_error_dpa"]      # the DPA carries a non-success result (with the E bit): a DPA all the same
 
 
 def shards(tier, seed):
@@ -203,6 +204,14 @@ class Case:
                         dpa = M.dpa(f"peer{i + 1}.verif.example", self.REALM, hbh=f.h.hbh, e2e=f.h.e2e)
                         if react == "prompt":
                             sp.send(dpa)
+                            reacted.add(i)
+                            dpa_at[i] = it
+                        elif react == "prompt_error_dpa":
+                            e = bytearray(M.dpa(f"peer{i + 1}.verif.example", self.REALM, hbh=f.h.hbh, e2e=f.h.e2e,
+                                                result=(3004, 5012, 3002)[i % 3]))
+                            if i % 2 == 0:
+                                e[4] |= 0x20
+                            sp.send(bytes(e))
                             reacted.add(i)
                             dpa_at[i] = it
                         elif react == "late" and h.now - dpr_seen[i][0] >= 3:
